@@ -55,7 +55,7 @@ META["C01"] = dict(
           "the real DB vs the reference for generated schemas, points and flush/reopen schedules; operation sequences on the real "
           "bytetree.Tree vs the structural model."),
     design_ref="DESIGN.md section 4 / C01", note=_DBNOTE + " bytetree is transcribed by hand (tied by stage tree); Tree.bytes and the mutex around removedFor are not modelled.",
-    technique="Coq proof (period arithmetic, grouping invariants, get = declared aggregate, store refinement) + real DB vs specification model differential evaluated by vm_compute")
+    technique="Coq proof (period arithmetic, grouping invariants, get = declared aggregate, store refinement, radix tree = finite map by invariant + refinement, translated tree structure) + real DB and real bytetree vs model differential evaluated by vm_compute")
 META["C06"] = dict(
     text=("Theorems (Props/C06.v): each native period lies in exactly one output period (T-P, T] anchored at until, output periods are "
           "disjoint; every accepted in-window point contributes to exactly one output row and the row is built from exactly those "
@@ -103,7 +103,7 @@ META["C03"] = dict(
           "Correspondence: the real DB under 5 kinds of flush/reopen schedules, all/some fields, memstore on/off after a flush, vs the "
           "schedule-independent reference; scans held against flushes and the remover (stage pin); the real bytetree.Tree vs Model/Tree.v."),
     design_ref="DESIGN.md section 4 / C03", note=_DBNOTE + " The store model covers one column; per-field independence, sorted flushes (emsort) and memory-pressure flushes are covered by correspondence only / not at all respectively.",
-    technique="Coq proof (store refinement by induction over operation lists, StoreP.v) + real DB under generated schedules vs specification model")
+    technique="Coq proof (store refinement by induction over operation lists; radix-tree Remove/Walk protocol; row-format round trip with translated write sequence) + real DB under generated schedules, real bytetree and real files vs model")
 
 META["C04"] = dict(
     text=("Theorems (Props/C04.v): in the row-store model a reader is a function of the state (any sequence of reads leaves every later "
@@ -129,7 +129,7 @@ META["C18"] = dict(
           "flushes and the remover of old files (stage pin); queries racing with the application of one multi-value point must see all "
           "of it or none (stage arrsnap); the real bytetree.Tree vs Model/Tree.v."),
     design_ref="DESIGN.md section 4 / C18", note=_DBNOTE + " The file side of the snapshot (a flush replaces the file while the old one is still being read) is covered by the correspondence only.",
-    technique="Coq proof (frame invariant over heap regions) + paused-scan differential on the real DB")
+    technique="Coq proof (frame invariant over heap regions; Tree.Copy = same finite map without marks) + paused-scan, racing-insert and real-bytetree differentials")
 
 META["C14"] = dict(
     text=("Theorems (Props/C14.v): a point older than clock - retention when processed leaves the state unchanged; the clock is monotone; "
